@@ -373,6 +373,13 @@ func (sc *SubCache[EntityT, ExcerptT, CacheT]) Resolve(id entity.Id) (CacheT, er
 	cached = sc.makeCached(e, sc.entityUpdated)
 
 	sc.mu.Lock()
+	// Another goroutine may have loaded the same entity since the check above. There must be a
+	// single loaded instance: with two of them, each commit overwrites what the other stored.
+	if loaded, ok := sc.cached[id]; ok {
+		sc.lru.Get(id)
+		sc.mu.Unlock()
+		return loaded, nil
+	}
 	sc.cached[id] = cached
 	sc.lru.Add(id)
 	sc.mu.Unlock()
